@@ -267,4 +267,75 @@ example : opGlue (lexemeOf .Less) '-' = false ∧ opGlue (lexemeOf .Equal) '-' =
     · exact absurd h (by decide)
     · exact absurd (h '+' (by decide)) (by decide)
 
+/-! ## `$x` inside `$(( ))`: text substitution before parsing -/
+
+/-- ☆ POSIX 2.6.4: the expression is treated as if in double quotes, i.e. `$x` is replaced by the VALUE TEXT of `x`
+    before the arithmetic is parsed.  When that text is a single constant token (`Spells v (value n)`: term
+    characters, first one a digit, a C constant with value `n`) and what follows cannot extend it, substitution
+    commutes with tokenizing: `substText` puts `v` in front of the substituted rest, the tokenizer reads `v…` as
+    the ONE token `n` exactly where it reads `x…` as the one token `x`, and that variable token has the value `n`
+    — so `$(( $x … ))` and `$(( x … ))` agree.  When the value is not a single token they do not (next example). -/
+theorem substitution_commutes_with_tokenizing (f : Nat) (st st2 : Store) (status s2 : Nat) (c : Char)
+    (cs after after' v t : List Char) (n : Int) (env : Env)
+    (hname : ∀ ch ∈ c :: cs, isTermChar ch = true) (hdig : isAsciiDigit c = false)
+    (hafter : ∀ ch, after.head? = some ch → isTermChar ch = false)
+    (hafter' : ∀ ch, after'.head? = some ch → isTermChar ch = false)
+    (hv : textOf st (c :: cs) = some v) (hsp : Spells v (.term (.value n)))
+    (hrest : substText f st status after = .ok (t, st2, s2))
+    (ht : ∀ ch, t.head? = some ch → isTermChar ch = false) (henv : env.get (c :: cs) = some v) :
+    substText (f + 1) st status ('$' :: ((c :: cs) ++ after)) = .ok (v ++ t, st2, s2) ∧
+    nextToken (v ++ t) = some (.term (.value n), t) ∧
+    nextToken ((c :: cs) ++ after') = some (.term (.variable (c :: cs)), after') ∧
+    intoValue (.variable (c :: cs)) env = .ok n := by
+  have hterm : ∀ (r : List Char), (∀ ch, r.head? = some ch → isTermChar ch = false) →
+      ∀ tm, Terminates (.term tm) r := by
+    intro r hr tm
+    cases r with
+    | nil => trivial
+    | cons a b => exact hr a rfl
+  refine ⟨?_, (nextToken_spells v t _ hsp (hterm t ht _)).1, ?_, ?_⟩
+  · rw [substText_dollar f st status c cs after v hname hafter hv, hrest]; rfl
+  · exact (nextToken_spells (c :: cs) after' (.term (.variable (c :: cs)))
+      ⟨rfl, by simp, hname, fun a ha => by simp at ha; subst ha; exact hdig⟩ (hterm after' hafter' _)).1
+  · simp only [Spells] at hsp
+    exact var_constant_agrees (c :: cs) v n env hsp.1 (by rw [parseConstant_eq_spec v hsp.1]; exact hsp.2.2) henv
+
+/-- the value `1+2` is NOT a single token: `$(( $x * 3 ))` is the text `1+2 * 3` (five tokens, value 7), neither the
+    value of `(1+2) * 3` nor what `$(( x * 3 ))` gives — reading `x` by name rejects the value (no recursive
+    evaluation of variable values) -/
+example :
+    tokenize 9 "1+2 * 3".toList = [.term (.value 1), .op .Plus, .term (.value 2), .op .Asterisk, .term (.value 3)] ∧
+    evalStr "1+2 * 3".toList [(['x'], "1+2".toList)] = .value 7 [(['x'], "1+2".toList)] ∧
+    evalStr "(1+2) * 3".toList [] = .value 9 [] ∧
+    evalStr "x * 3".toList [(['x'], "1+2".toList)] = .evalError .invalidVariableValue ∧
+    evalStr "x * 3".toList [(['x'], ['3'])] = .value 9 [(['x'], ['3'])] := by
+  decide +kernel
+
+/-! ## which cause a failing tree is allowed to report -/
+
+/-- ☆ `Spec.fails e env` — the set of causes ISO C admits for the failure of the tree `e` (every failing operand of
+    an unsequenced operator in any order; left-first for `|| && ?:`; an operation's own reason only when its
+    operands have values; computed on the tree, independent of the code's evaluation order) — is empty EXACTLY
+    when the Spec gives `e` a value, for every tree with literals in i64 and every environment.  So the Spec
+    column's verdict on a failing case (`the reported cause ∈ Spec.fails`) is never vacuous and never contradicts
+    its verdict on values; it is a singleton whenever only one operand or operation fails. -/
+theorem admissible_causes_iff_no_value (e : Spec.Expr) (env : Env) (hl : litsInRange e) :
+    Spec.fails e env = [] ↔ (Spec.evalExact e env).isSome :=
+  fails_nil_iff e env hl
+
+/-- one failing operation: one admissible cause; two failing operands of `+`: both admissible (C does not say which
+    is evaluated first; the code reports the subtree that fails first, reading bare variables last); the skipped
+    operand of `&&` is not a cause -/
+example :
+    Spec.fails (.bin .Divide (.num 1) (.num 0)) [] = [.reason .divisionByZero] ∧
+    Spec.fails (.bin .ShiftLeft (.pre .NumericNegation (.num 1)) (.pre .NumericNegation (.num 1))) [] =
+      [.reason .leftShiftOfNegative] ∧
+    Spec.fails (.bin .Add (.var ['j']) (.bin .Divide (.num 1) (.num 0))) [(['j'], "junk".toList)] =
+      [.value, .reason .divisionByZero] ∧
+    evalStr "j + 1/0".toList [(['j'], "junk".toList)] = .evalError .divisionByZero ∧
+    evalStr "(j+0) + 1/0".toList [(['j'], "junk".toList)] = .evalError .invalidVariableValue ∧
+    Spec.fails (.bin .LogicalAnd (.num 0) (.bin .Divide (.num 1) (.num 0))) [] = [] ∧
+    Spec.fails (.post .Increment (.num 3)) [] = [.notLvalue] := by
+  decide +kernel
+
 end YashModel.Arith
